@@ -28,6 +28,92 @@ def _copy_sources(dst: str) -> None:
                 shutil.copy2(os.path.join(dp, fn), os.path.join(dst, rel, fn))
 
 
+def _rename_locals(src: str, tree) -> str:
+    """Alpha-rename every local variable that is assigned in a function and seen by no other scope (not a parameter, not global /
+    nonlocal, not free in a nested function, lambda or comprehension): `x` becomes `x_rn`.  Functions that use locals(), vars(),
+    eval() or exec() are left alone."""
+    import ast
+    import symtable
+    try:
+        top = symtable.symtable(src, '<src>', 'exec')
+    except SyntaxError:
+        return src
+    plans = {}          # (name, lineno) -> set of names
+
+    def walk(tab):
+        for ch in tab.get_children():
+            if ch.get_type() == 'function':
+                free_in_children = set()
+
+                def collect(t):
+                    for c2 in t.get_children():
+                        for sym in c2.get_symbols():
+                            if sym.is_free() or sym.is_global():
+                                free_in_children.add(sym.get_name())
+                        collect(c2)
+                collect(ch)
+                names = set()
+                for sym in ch.get_symbols():
+                    n = sym.get_name()
+                    if sym.is_local() and sym.is_assigned() and not sym.is_parameter() and not sym.is_global() and \
+                            not sym.is_nonlocal() and n not in free_in_children and not n.startswith('__') and not sym.is_imported() and \
+                            not sym.is_namespace():
+                        names.add(n)
+                plans[(ch.get_name(), ch.get_lineno())] = names
+            walk(ch)
+    walk(top)
+
+    class R(ast.NodeTransformer):
+        def _do(self, node):
+            names = set(plans.get((node.name, node.lineno), set()))
+            # never rename a name that any nested scope mentions (functions, lambdas, classes, comprehensions): computed on the
+            # syntax tree because the symbol table of 3.12 folds inlined comprehensions into their parent
+            for sub in ast.walk(node):
+                if sub is not node and isinstance(sub, (ast.FunctionDef, ast.AsyncFunctionDef, ast.Lambda, ast.ClassDef, ast.ListComp,
+                                                        ast.SetComp, ast.DictComp, ast.GeneratorExp)):
+                    for x in ast.walk(sub):
+                        if isinstance(x, ast.Name):
+                            names.discard(x.id)
+            body_src_uses_dynamic = any(isinstance(c, ast.Call) and isinstance(c.func, ast.Name) and c.func.id in ('locals', 'vars', 'eval', 'exec')
+                                        for c in ast.walk(node))
+            if names and not body_src_uses_dynamic:
+                self._rename_in(node, names)
+            self.generic_visit(node)
+            return node
+        visit_FunctionDef = _do
+        visit_AsyncFunctionDef = _do
+
+        def _rename_in(self, fn, names):
+            # rename Name nodes of this scope only: do not descend into nested scopes
+            def rec(n):
+                for ch in ast.iter_child_nodes(n):
+                    if isinstance(ch, (ast.FunctionDef, ast.AsyncFunctionDef, ast.Lambda, ast.ClassDef, ast.ListComp, ast.SetComp,
+                                       ast.DictComp, ast.GeneratorExp)):
+                        # decorators/defaults/first iterable are evaluated in the enclosing scope, but renamed names are never free
+                        # in children, so nothing inside needs the new name; the first iterable of a comprehension is the exception
+                        if isinstance(ch, (ast.ListComp, ast.SetComp, ast.DictComp, ast.GeneratorExp)):
+                            rec_expr(ch.generators[0].iter)
+                        continue
+                    if isinstance(ch, ast.Name) and ch.id in names:
+                        ch.id = ch.id + '_rn'
+                    if isinstance(ch, ast.ExceptHandler) and ch.name in names:
+                        ch.name = ch.name + '_rn'
+                    if isinstance(ch, (ast.MatchAs, ast.MatchStar)) and getattr(ch, 'name', None) in names:
+                        ch.name = ch.name + '_rn'
+                    rec(ch)
+
+            def rec_expr(e):
+                if isinstance(e, ast.Name) and e.id in names:
+                    e.id = e.id + '_rn'
+                rec(e)
+            for st in fn.body:
+                if isinstance(st, ast.Name) and st.id in names:
+                    st.id += '_rn'
+                rec(st) if not isinstance(st, (ast.FunctionDef, ast.AsyncFunctionDef, ast.ClassDef)) else None
+    new_tree = R().visit(tree)
+    return ast.unparse(ast.fix_missing_locations(new_tree)) + '\n'
+
+
 def _transform_all(root: str, how: str) -> Tuple[bool, str]:
     """Generic behaviour-preserving rewrites of every source file: `unparse` = regenerate the text from the syntax tree (comments
     dropped, layout and line numbers changed, quotes/parentheses normalised), `shift` = push every line down by a comment block,
@@ -48,6 +134,8 @@ def _transform_all(root: str, how: str) -> Tuple[bool, str]:
                 new = ast.unparse(tree) + '\n'
             elif how == 'shift':
                 new = '# generated header line 1\n# generated header line 2\n# generated header line 3\n' + src
+            elif how == 'rename':
+                new = _rename_locals(src, tree)
             elif how == 'log':
                 class T(ast.NodeTransformer):
                     def visit_FunctionDef(self, node):
@@ -154,7 +242,7 @@ def load_cases(pid: str = None) -> List[Dict[str, Any]]:
     # generic twins: whole-tree rewrites that change no behaviour, one set per property
     props = sorted({c['property'] for c in cases}) if pid is None else [pid]
     for pr in props:
-        for how in ('unparse', 'shift', 'log'):
+        for how in ('unparse', 'shift', 'log', 'rename'):
             cases.append({'id': f'{pr}-g-{how}', 'property': pr, 'kind': 'twin', 'transform': how, 'edits': []})
     return cases
 
